@@ -1444,14 +1444,31 @@ def generate(prop, seed, run, overrides=None):
         import copy
         cands = [o for o in case['history']
                  if o['op'] in ('join', 'filter_tables', 'filter_candset',
-                                'filter_pair', 'apply_matcher')
+                                'filter_pair', 'apply_matcher', 'pipeline')
                  and 'fault' not in o]
         if cands:
             base = rng.choice(cands)
             fa = copy.deepcopy(base)
             for k2 in ('variants', 'twin'):
                 fa.pop(k2, None)
-            f = gen_fault(g, fa, force=True)
+            if fa['op'] == 'pipeline':
+                stage = rng.choice(['m', 'm', 'f', 'j'])
+                kind = rng.choice(['sim_raise', 'tok_raise', 'worker_crash']
+                                  if stage == 'm' else
+                                  ['tok_raise', 'worker_crash'])
+                if kind == 'tok_raise' and stage == 'm' and \
+                        fa['measure'] == 'EDIT_DISTANCE':
+                    kind = 'sim_raise'
+                f = {'kind': kind, 'frac': round(rng.random(), 4),
+                     'stage': stage}
+                if kind == 'worker_crash':
+                    f['fanout'] = 0
+                    jk = {'m': 'n_jobs_m', 'f': 'n_jobs_f',
+                          'j': 'n_jobs_j'}[stage]
+                    if fa.get(jk) in (1, None):
+                        fa[jk] = rng.choice([2, 3])
+            else:
+                f = gen_fault(g, fa, force=True)
             if f:
                 fa['fault'] = f
                 if f['kind'] == 'worker_crash' and fa.get('n_jobs') in (1,
@@ -1470,6 +1487,30 @@ def generate(prop, seed, run, overrides=None):
                         again = sib
                 case['history'].append(fa)
                 case['history'].append(again)
+                if base['op'] == 'join' and rng.random() < 0.4:
+                    # ... and a join that needs the tokenizer in the *other*
+                    # mode (edit distance <-> set similarity) on the same
+                    # tokenizer object
+                    tn = base.get('tok')
+                    spec = g.case['tokenizers'].get(tn) if isinstance(tn, str) \
+                        else None
+                    if isinstance(spec, dict) and spec['kind'] == 'qgram':
+                        opp = copy.deepcopy(base)
+                        for k2 in ('variants', 'fault', 'twin'):
+                            opp.pop(k2, None)
+                        if base['measure'] == 'EDIT_DISTANCE':
+                            opp['measure'] = rng.choice(['JACCARD', 'COSINE',
+                                                         'DICE'])
+                            opp['threshold'] = gen_threshold(
+                                rng, opp['measure'], prof)
+                            opp['comp_op'] = '>='
+                            opp['allow_empty'] = rng.random() < 0.6
+                        else:
+                            opp['measure'] = 'EDIT_DISTANCE'
+                            opp['threshold'] = rng.choice([0, 1, 2, 3])
+                            opp['comp_op'] = rng.choice(['<=', '<=', '<', '='])
+                            opp.pop('allow_empty', None)
+                        case['history'].append(opp)
     for _, fs in g.filters:
         fs.pop('_used', None)
     return case
